@@ -24,7 +24,7 @@ META = {
                  'C04_int_of_str_shape', 'C04_scalar_ref', 'C04_int_v0', 'C04_int_v1', 'C04_str',
                  'C04_datetime_z_suffix', 'C04_datetime_numeric_utc', 'C04_datetime_numeric_v1',
                  'C04_datetime_env_numeric_string', 'C04_timedelta_dispatch',
-                 'C04_enum', 'C04_decimal', 'C04_everywhere', 'C04_everywhere_ref',
+                 'C04_enum', 'C04_decimal', 'C04_everywhere', 'C04_everywhere_ref', 'C04_dict_key_ref',
                  'C04_env_split', 'C04_env_split_dict', 'C04_env_tuple_refuted'],
     'tables': ['Truthy'],
     'level_text': ('Theorems proved in Coq for ALL JSON-ish inputs (unbounded ints, exact dyadic floats, arbitrary ASCII strings, '
@@ -37,7 +37,10 @@ META = {
                    'b64decode/json.loads answers).  Python >= 3.11 assumed for v1 ISO parsing (hypothesis iso_z_native).'),
     'rule': ('per scalar type a fixed list of boundary spellings (sign, exponent, whitespace, underscores, case, Z vs offset, '
              'bool-vs-int, huge ints, negative timestamps, 1.0/1.5/1e3, empty string, None) plus random ints/dyadic floats/'
-             'numeric strings/case-mangled truthy words; each at top level and in sampled container contexts (list, dict value, '
+             'numeric strings/case-mangled truthy words; per type a few core values (None, empty string, one coercible and one rejected spelling) at '
+             'EVERY position kind (incl. dict keys of every hashable scalar type, defaultdict/OrderedDict, set/frozenset/deque/Sequence, TypedDict '
+             'total/partial/Required/NotRequired, NamedTuple, nested dataclass, Annotated, Union members; those outside the Coq type grammar by the '
+             'direct predicate only), the rest at top level and in sampled container contexts (list, dict value, '
              'int-keyed dict, tuple[t,...], fixed tuple, Optional, two-level nestings), for v0, v1 and Env (Env strings through '
              'os.environ incl. comma/equals shorthand and JSON forms).  Non-trivial = value is not already of the annotated type; '
              'distinct = distinct (type, value, engine).'),
@@ -51,12 +54,22 @@ META = {
 # ----------------------------------------------------------------------------------------------
 # type descriptors and values -> Coq
 SCALARS = ['str', 'int', 'float', 'bool', 'bytes', 'datetime', 'date', 'time', 'timedelta', 'decimal',
-           'enum:Color', 'enum:Num']
+           'enum:Color', 'enum:Num', 'enum:SColor', 'enum:Mode', 'uuid']
+# enum:SColor is a `class SColor(str, Enum)`, enum:Mode an `enum.StrEnum`: members compare equal to their
+# values, so only the concrete type of the loaded object tells whether they were loaded by value
+ENUMS = {'enum:Color': [('red', 'RED'), ('Blue', 'BLUE'), ('', 'EMPTY')],
+         'enum:Num': [(0, 'ZERO'), (1, 'ONE'), (2, 'TWO')],
+         'enum:SColor': [('red', 'SRED'), ('Blue', 'SBLUE')],
+         'enum:Mode': [('fast', 'FAST'), ('Slow', 'SLOW')]}
+ENUM_COQ = {k: k.split(':')[1].lower() + '_members' for k in ENUMS}
+# scalar annotations the Coq model knows ('uuid' is covered by the direct predicate only)
 COQ_SCALAR = {'str': 'SStr', 'int': 'SInt', 'float': 'SFloat', 'bool': 'SBool', 'bytes': 'SBytes',
               'datetime': 'SDateTime', 'date': 'SDate', 'time': 'STime', 'timedelta': 'STimedelta',
-              'decimal': 'SDecimal', 'enum:Color': '(SEnum color_members)', 'enum:Num': '(SEnum num_members)'}
-ENUMS = {'enum:Color': [('red', 'RED'), ('Blue', 'BLUE'), ('', 'EMPTY')],
-         'enum:Num': [(0, 'ZERO'), (1, 'ONE'), (2, 'TWO')]}
+              'decimal': 'SDecimal'}
+STR_ENUMS = ('enum:SColor', 'enum:Mode')
+COQ_SCALAR.update({k: '(%s %s)' % ('SStrEnum' if k in STR_ENUMS else 'SEnum', v) for k, v in ENUM_COQ.items()})
+COQ_KEY = {'str': 'KStr', 'int': 'KInt'}
+COQ_KEY.update({k: '(%s %s)' % ('KStrEnum' if k in STR_ENUMS else 'KEnum', v) for k, v in ENUM_COQ.items()})
 ENGINES = ['v0', 'v1', 'env']
 COQ_ENGINE = {'v0': 'V0', 'v1': 'V1', 'env': 'Env'}
 
@@ -74,8 +87,45 @@ def coq_ty(d):
     if k == 'tup':
         return '(TTup %s)' % coq_list([coq_ty(x) for x in d[1]])
     if k == 'dict':
-        return '(TDict %s %s)' % ({'str': 'KStr', 'int': 'KInt'}[d[1]], coq_ty(d[2]))
+        return '(TDict %s %s)' % (COQ_KEY[d[1]], coq_ty(d[2]))
     raise ValueError(d)
+
+
+def modelled_ty(d):
+    """is the annotation inside the type grammar of CoerceModel.v?"""
+    if isinstance(d, str):
+        return d in COQ_SCALAR
+    k = d[0]
+    if k in ('opt', 'list', 'tupv'):
+        return modelled_ty(d[1])
+    if k == 'tup':
+        return all(modelled_ty(x) for x in d[1])
+    if k == 'dict':
+        return d[1] in COQ_KEY and modelled_ty(d[2])
+    return False
+
+
+def plain_json(v):
+    if isinstance(v, list):
+        return all(plain_json(x) for x in v)
+    if isinstance(v, dict):
+        return '__pairs__' not in v and all(plain_json(x) for x in v.values())
+    return True
+
+
+def modelled(case):
+    return modelled_ty(case['ty']) and plain_json(case['val'])
+
+
+def decode_val(v):
+    """{'__pairs__': [[k, v]...]} -> dict with arbitrarily typed keys (from_dict input that is not JSON)"""
+    if isinstance(v, list):
+        return [decode_val(x) for x in v]
+    if isinstance(v, dict):
+        if set(v) == {'__pairs__'}:
+            return {k: decode_val(x) for k, x in v['__pairs__']}
+        return {k: decode_val(x) for k, x in v.items()}
+    return v
 
 
 def fl_parts(f):
@@ -172,7 +222,18 @@ def enc_float(f):
     return '%dp%d' % fl_parts(f)
 
 
-def enc(v):
+class NTVal:
+    def __init__(self, items):
+        self.items = items
+
+
+class DCVal:
+    def __init__(self, items):
+        self.items = items
+
+
+def enc(v, sort=False):
+    import collections, uuid
     t = type(v)
     if v is None:
         return 'N'
@@ -187,11 +248,17 @@ def enc(v):
     if t is bytes:
         return 'Y%s;' % hx(v)
     if t is list:
-        return 'L[%s]' % ''.join(enc(x) for x in v)
+        return 'L[%s]' % ''.join(enc(x, sort) for x in v)
     if t is tuple:
-        return 'T[%s]' % ''.join(enc(x) for x in v)
-    if t is dict:
-        return 'D[%s]' % ''.join(enc(k) + enc(x) for k, x in v.items())
+        return 'T[%s]' % ''.join(enc(x, sort) for x in v)
+    if t in (dict, collections.defaultdict, collections.OrderedDict):
+        items = [enc(k, sort) + enc(x, sort) for k, x in v.items()]
+        tag = {dict: 'D', collections.defaultdict: 'DD', collections.OrderedDict: 'OD'}[t]
+        return '%s[%s]' % (tag, ''.join(sorted(items) if sort else items))
+    if t in (set, frozenset):
+        return '%s{%s}' % ('Z' if t is set else 'FZ', ''.join(sorted(enc(x, sort) for x in v)))
+    if t is collections.deque:
+        return 'Q[%s]' % ''.join(enc(x, sort) for x in v)
     if t is datetime.datetime:
         return 'Pdt%s;' % hx(v.isoformat())
     if t is datetime.date:
@@ -202,14 +269,26 @@ def enc(v):
         return 'Ptd%s;' % hx('%d,%d,%d' % (v.days, v.seconds, v.microseconds))
     if t is decimal.Decimal:
         return 'Pdec%s;' % hx(str(v))
+    if t is uuid.UUID:
+        return 'Pu%s;' % hx(str(v))
     if t is EnumName:
         return 'M%s;' % hx(v.name)
+    if t is NTVal:
+        return 'NT[%s]' % ''.join(enc(x, sort) for x in v.items)
+    if t is DCVal:
+        return 'DC[%s]' % ''.join(enc(x, sort) for x in v.items)
     raise TypeError(t)
 
 
 class EnumName:
     def __init__(self, name):
         self.name = name
+
+    def __eq__(self, other):
+        return type(other) is EnumName and other.name == self.name
+
+    def __hash__(self):
+        return hash(('EnumName', self.name))
 
 
 # ----------------------------------------------------------------------------------------------
@@ -356,6 +435,15 @@ def ref_scalar(t, v, eng):
             except decimal.InvalidOperation:
                 return UNDOC
         return UNDOC
+    if t == 'uuid':
+        # "de-serialized from JSON strings using the constructor method -- i.e. UUID(string)"
+        if isinstance(v, str):
+            import uuid
+            try:
+                return ok(uuid.UUID(v))
+            except ValueError:
+                return UNDOC
+        return UNDOC
     if t == 'bytes':
         if eng == 'v1' and isinstance(v, str) and B64_STRICT.match(v):
             return ok(base64.b64decode(v))
@@ -376,9 +464,17 @@ def ref_coerce(ty, v, eng):
     k = ty[0]
     if k == 'opt':
         return ok(None) if v is None else ref_coerce(ty[1], v, eng)
-    if eng == 'env' and isinstance(v, str) and k in ('list', 'tupv', 'tup', 'dict'):
+    if k == 'ann':
+        return ref_coerce(ty[1], v, eng)        # Annotated[T, ...]: "we only need T"
+    # docs/env_magic.rst: "lists/dicts can also be specified in JSON format ... or in shorthand format",
+    # with NamedTuple, TypedDict and nested dataclass fields in the complete example
+    dictlike = k in ('dict', 'ddict', 'odict', 'td', 'dc')
+    listlike = k in ('list', 'tupv', 'tup', 'nt', 'set', 'fset', 'deque', 'seq', 'mseq', 'coll')
+    if isinstance(v, str) and k != 'union' and not (eng == 'env' and (dictlike or listlike)):
+        return UNDOC
+    if eng == 'env' and isinstance(v, str) and (dictlike or listlike):
         st = v.lstrip()
-        opener = '{' if k == 'dict' else '['
+        opener = '{' if dictlike else '['
         if st[:1] == opener:
             try:
                 v = json.loads(v)
@@ -386,7 +482,7 @@ def ref_coerce(ty, v, eng):
                 return UNDOC
         elif st[:1] in ('[', '{') or v.strip() == '':
             return UNDOC
-        elif k == 'dict':
+        elif dictlike:
             d = {}
             for pair in v.split(','):
                 if '=' not in pair:
@@ -415,10 +511,73 @@ def ref_coerce(ty, v, eng):
             return REJECT
         vals = [p[1] for p in parts]
         return ok(vals if k == 'list' else tuple(vals))
-    if k == 'dict':
+    if k in ('set', 'fset', 'deque', 'seq', 'mseq', 'coll'):
+        # "set, frozenset, and deque types will be de-serialized using their annotated base types";
+        # Sequence -> tuple, MutableSequence / Collection -> list (docs/overview.rst, ABC containers)
+        import collections
+        if not isinstance(v, list):
+            return UNDOC
+        parts = [ref_coerce(ty[1], x, eng) for x in v]
+        if any(p is UNDOC for p in parts):
+            return UNDOC
+        if any(p is REJECT for p in parts):
+            return REJECT
+        vals = [p[1] for p in parts]
+        try:
+            return ok({'set': set, 'fset': frozenset, 'deque': collections.deque, 'seq': tuple, 'mseq': list, 'coll': list}[k](vals))
+        except TypeError:
+            return UNDOC                        # unhashable element
+    if k == 'td':
+        # TypedDict: every present key is a coercion position (required or not); key order is not specified
         if not isinstance(v, dict):
             return UNDOC
-        out = {}
+        fields = {name: (t1, (flag == 'req') if flag else bool(ty[1])) for name, t1, flag in ty[2]}
+        if any(key not in fields for key in v) or any(req and name not in v for name, (_, req) in fields.items()):
+            return UNDOC
+        out, rej = {}, False
+        for key, x in v.items():
+            px = ref_coerce(fields[key][0], x, eng)
+            if px is UNDOC:
+                return UNDOC
+            if px is REJECT:
+                rej = True
+                continue
+            out[key] = px[1]
+        return REJECT if rej else ok(out)
+    if k == 'nt':
+        # "NamedTuple sub-types are de-serialized from a list, tuple, or any iterable type"
+        if not isinstance(v, list):
+            return UNDOC
+        need = sum(1 for _, _, dflt in ty[1] if not dflt)
+        if not need <= len(v) <= len(ty[1]):
+            return UNDOC
+        parts = [ref_coerce(t1, x, eng) for (_, t1, _), x in zip(ty[1], v)]
+        if any(p is UNDOC for p in parts):
+            return UNDOC
+        if any(p is REJECT for p in parts):
+            return REJECT
+        return ok(NTVal([p[1] for p in parts] + [None] * (len(ty[1]) - len(v))))
+    if k == 'dc':
+        # nested dataclass: a dict with exactly the field names
+        if not isinstance(v, dict) or set(v) != {name for name, _ in ty[1]}:
+            return UNDOC
+        parts = [ref_coerce(t1, v[name], eng) for name, t1 in ty[1]]
+        if any(p is UNDOC for p in parts):
+            return UNDOC
+        if any(p is REJECT for p in parts):
+            return REJECT
+        return ok(DCVal([p[1] for p in parts]))
+    if k == 'union':
+        # only the unambiguous part: a value whose exact type is a scalar member is kept as it is
+        names = {bool: 'bool', int: 'int', float: 'float', str: 'str'}
+        if type(v) in names and names[type(v)] in ty[1]:
+            return ok(v)
+        return UNDOC
+    if k in ('dict', 'ddict', 'odict'):
+        import collections
+        if not isinstance(v, dict):
+            return UNDOC
+        out = {'dict': dict, 'ddict': lambda: collections.defaultdict(None), 'odict': collections.OrderedDict}[k]()
         rej = False
         for key, x in v.items():
             pk = ref_scalar(ty[1], key, eng)
@@ -437,6 +596,7 @@ def ref_coerce(ty, v, eng):
 
 # ----------------------------------------------------------------------------------------------
 # generators
+UUID_S = '12345678-1234-5678-1234-567812345678'
 TRUTHY_WORDS = ['true', 't', 'yes', 'y', 'on', '1']
 INF, NAN = float('inf'), float('nan')
 
@@ -470,11 +630,23 @@ BOUNDARY = {
     'enum:Num': [0, 1, 2, 3, -1, '1', 'ONE', 1.0, 2.0, 1.5, True, False, None],
     'decimal': ['1.50', '1.5', '1E+3', ' 1.5 ', '1_000', 'NaN', 'Infinity', '-0', 'abc', '', '.5', '5.',
                 1, -7, 0, 10 ** 30, 1.1, 0.1, 1e22, 2.5, 1e-7, True, False, None],
+    'enum:SColor': ['red', 'Blue', 'RED', 'blue', 'SRED', '', ' red', None, 1, True],
+    'enum:Mode': ['fast', 'Slow', 'FAST', 'slow', 'SLOW', '', None, 0],
+    'uuid': [UUID_S, UUID_S.replace('-', ''), '{%s}' % UUID_S, 'urn:uuid:' + UUID_S, UUID_S.upper(), 'x', '', UUID_S[:-1], None, 5],
     'bytes': ['aGVsbG8=', 'aGVsbG8', '', 'AA==', 'AAAA', 'hello', '!!!!', 'aGVs bG8=', 'a', None, 1, True],
 }
 # a value accepted by every engine, used as the neighbour inside containers
 FILLER = {'int': 3, 'str': 'x', 'bool': True, 'float': 2.5, 'datetime': '2021-05-06T07:08:09', 'date': '2021-05-06',
-          'time': '07:08:09', 'timedelta': 90, 'decimal': '2.50', 'enum:Color': 'red', 'enum:Num': 2, 'bytes': 'AAAA'}
+          'time': '07:08:09', 'timedelta': 90, 'decimal': '2.50', 'enum:Color': 'red', 'enum:Num': 2, 'bytes': 'AAAA',
+          'enum:SColor': 'red', 'enum:Mode': 'fast', 'uuid': UUID_S}
+# per type: the null / boundary values that are placed at EVERY position kind (all contexts, all engines)
+CORE = {'str': [None, 5, 'a'], 'int': [None, '', '7', '1.5', 2.5, True], 'float': [None, '1.5', 1],
+        'bool': [None, 'yes', 'no', 1], 'bytes': [None, 'AAAA'], 'datetime': [None, '2020-01-02T03:04:05Z', 1600000000],
+        'date': [None, '2020-01-02', 86400], 'time': [None, '03:04:05Z'], 'timedelta': [None, '1.5', '01:45', 90],
+        'decimal': [None, '1.50', 2.5], 'enum:Color': [None, 'red', 'RED'], 'enum:Num': [None, 1, 2.0],
+        'enum:SColor': [None, 'red', 'SRED'], 'enum:Mode': [None, 'Slow', 'SLOW'], 'uuid': [None, UUID_S]}
+# annotations used as dict KEY types (keys are coercion positions too); bytes is not loadable from a key
+KEY_TYPES = [t for t in SCALARS if t != 'bytes']
 ENV_FILLER = dict(FILLER, int='3', bool='yes', float='2.5', timedelta='90', **{'enum:Num': 2})
 
 
@@ -541,10 +713,10 @@ def ascii_only(v):
     return True
 
 
-def contexts(r, t, v, tier):
-    """(type, value, engines, tag) placements of scalar (t, v): top level always, containers sampled."""
+def all_contexts(t, v):
+    """every position kind of the type grammar around scalar (t, v)"""
     fill = FILLER[t]
-    allc = [
+    return [
         ('list', ['list', t], [fill, v]),
         ('dict', ['dict', 'str', t], {'k': v, 'j': fill}),
         ('dictint', ['dict', 'int', t], {'1': fill, ' 02': v}),
@@ -559,11 +731,55 @@ def contexts(r, t, v, tier):
         ('list.list', ['list', ['list', t]], [[v, fill], []]),
         ('tup.list', ['tup', [['list', t], 'str']], [[v], None]),
         ('tupv.dict', ['tupv', ['dict', 'str', t]], [{'q': v}]),
+        ('dict.enumkey', ['dict', 'enum:SColor', t], {'Blue': v}),
+        # position kinds outside the Coq model's type grammar (direct predicate + reference only)
+        ('ddict', ['ddict', 'str', t], {'k': v, 'j': fill}),
+        ('odict', ['odict', 'str', t], {'k': v}),
+        ('set', ['set', t], [v, fill]),
+        ('fset', ['fset', t], [v]),
+        ('deque', ['deque', t], [fill, v]),
+        ('seq', ['seq', t], [v, fill]),
+        ('mseq', ['mseq', t], [v]),
+        ('coll', ['coll', t], [v]),
+        ('td.req', ['td', True, [['a', t, None], ['b', 'int', None]]], {'a': v, 'b': '3'}),
+        ('td.partial', ['td', False, [['a', t, None], ['b', 'int', None]]], {'a': v}),
+        ('td.notreq', ['td', True, [['b', 'int', None], ['a', t, 'opt']]], {'b': 3, 'a': v}),
+        ('td.req_in_partial', ['td', False, [['a', t, 'req'], ['b', 'str', None]]], {'a': v, 'b': None}),
+        ('list.td', ['list', ['td', False, [['a', t, None]]]], [{'a': v}, {}]),
+        ('dict.td.opt', ['dict', 'str', ['td', True, [['a', ['opt', t], 'opt']]]], {'k': {'a': v}}),
+        ('nt', ['nt', [['a', t, False], ['b', 'int', True]]], [v]),
+        ('nt.default', ['nt', [['b', 'str', False], ['a', t, True]]], [1, v]),
+        ('list.nt', ['list', ['nt', [['a', t, False]]]], [[v], [fill]]),
+        ('dc', ['dc', [['a', t], ['b', 'str']]], {'a': v, 'b': None}),
+        ('dict.dc', ['dict', 'str', ['dc', [['a', t]]]], {'k': {'a': v}}),
+        ('dc.opt', ['dc', [['a', ['opt', t]]]], {'a': v}),
+        ('dc.list', ['dc', [['a', ['list', t]]]], {'a': [v, fill]}),
+        ('td.dict', ['td', False, [['m', ['dict', 'int', t], None]]], {'m': {'7': v}}),
+        ('ann', ['ann', t], v),
+        ('list.ann', ['list', ['ann', ['opt', t]]], [v, None]),
     ]
-    out = [('top', t, v)]
-    k = 2 if tier == 'quick' else 4
-    out += r.sample(allc, k)
-    return out
+
+
+def contexts(r, t, v, tier, every=False):
+    """placements of scalar (t, v): top level always; every position kind for core values, else sampled."""
+    allc = all_contexts(t, v)
+    if not every:
+        allc = r.sample(allc, 2 if tier == 'quick' else 4)
+    return [('top', t, v)] + allc
+
+
+def key_contexts(K, key):
+    """dict KEY positions: the key annotation K around the key spelling, in every dict-like container"""
+    return [
+        ('key.dict', ['dict', K, 'int'], {key: '3'}),
+        ('key.ddict', ['ddict', K, 'str'], {key: None}),
+        ('key.odict', ['odict', K, 'int'], {key: 2.0}),
+        ('key.list.dict', ['list', ['dict', K, ['list', 'int']]], [{key: ['1', 2]}, {}]),
+        ('key.dict.dict', ['dict', 'str', ['dict', K, 'bool']], {'o': {key: 'yes'}}),
+        ('key.opt.dict', ['opt', ['dict', K, ['opt', 'int']]], {key: None}),
+        ('key.td.dict', ['td', False, [['m', ['dict', K, 'int'], None]]], {'m': {key: '1'}}),
+        ('key.dc.dict', ['dc', [['m', ['dict', K, 'str']]]], {'m': {key: 5}}),
+    ]
 
 
 def env_string_forms(r, t, v):
@@ -586,8 +802,17 @@ def env_string_forms(r, t, v):
         ('env.opt.list', ['opt', ['list', t]], '%s,%s' % (v, v)),
         ('env.list.list', ['list', ['list', t]], '%s,%s' % (v, fill)),
         ('env.dict.list', ['dict', 'str', ['list', t]], 'a=%s' % v),
+        ('env.set', ['set', t], '%s , %s' % (v, fill)),
+        ('env.deque', ['deque', t], json.dumps([fill, v])),
+        ('env.seq', ['seq', t], '%s,%s' % (v, v)),
+        ('env.nt', ['nt', [['a', t, False], ['b', 'bool', False]]], '%s, yes' % v),
+        ('env.json.nt', ['nt', [['b', 'str', False], ['a', t, True]]], json.dumps([1, v])),
+        ('env.td', ['td', False, [['a', t, None], ['b', 'int', None]]], 'a=%s' % v),
+        ('env.json.td', ['td', True, [['a', t, None], ['b', 'int', 'opt']]], json.dumps({'a': v, 'b': None})),
+        ('env.dc', ['dc', [['a', t], ['b', 'str']]], 'a = %s , b=x' % v),
+        ('env.ddict', ['ddict', 'str', t], 'k=%s' % v),
     ]
-    return r.sample(out, 3)
+    return r.sample(out, 4)
 
 
 def gen_cases(ctx):
@@ -605,11 +830,33 @@ def gen_cases(ctx):
         cases.append({'tag': tag, 'ty': ty, 'val': v, 'engines': engines})
 
     for t in SCALARS:
-        for v in BOUNDARY[t] + rnd[t]:
+        for v in CORE[t]:
+            for tag, ty, val in contexts(r, t, v, ctx.tier, every=True):
+                add(tag, ty, val, ENGINES)
+        for v in BOUNDARY[t] + rnd.get(t, []):
             for tag, ty, val in contexts(r, t, v, ctx.tier):
                 add(tag, ty, val, ENGINES)
-            for tag, ty, val in env_string_forms(r, t, v):
-                add(tag, ty, val, ['env'])
+            if t in ENV_FILLER:
+                for tag, ty, val in env_string_forms(r, t, v):
+                    add(tag, ty, val, ['env'])
+    # dict keys: core spellings at every key position kind, the other boundary spellings at a sampled one
+    for K in KEY_TYPES:
+        keys = [v for v in BOUNDARY[K] + rnd.get(K, [])[:6 if ctx.tier == 'quick' else 40] if isinstance(v, str)]
+        core = [v for v in CORE[K] if isinstance(v, str)]
+        for key in dict.fromkeys(core + keys):
+            kc = key_contexts(K, key)
+            for tag, ty, val in (kc if key in core else r.sample(kc, 1 if ctx.tier == 'quick' else 3)):
+                add(tag, ty, val, ENGINES)
+        # keys that are not strings (from_dict / EnvWizard keyword input, not JSON)
+        for key in [x for x in CORE[K] + [1, 0, 2.0, True, None] if not isinstance(x, str)]:
+            add('key.nonstr', ['dict', K, 'int'], {'__pairs__': [[key, '3']]}, ENGINES)
+            add('key.nonstr.list', ['list', ['dict', K, 'int']], [{'__pairs__': [[key, 3]]}], ENGINES)
+    # Union members: a value whose exact type is a scalar member
+    for ty, vals in [(['union', ['int', 'str']], [5, '5', 'a', '']), (['union', ['str', 'int']], ['5', 7]),
+                     (['union', ['bool', 'int']], [1, True, 0]), (['union', ['float', 'str']], [1.5, 'x']),
+                     (['list', ['union', ['int', 'str']]], [[1, 'a', '2']]), (['dict', 'str', ['union', ['str', 'float']]], [{'a': 'x', 'b': 2.5}])]:
+        for v in vals:
+            add('union', ty, v, ENGINES)
     # container shape cases (mostly outside the documented domain: model == implementation only)
     for ty, vals in [
         (['tup', ['int', 'bool']], [['1'], ['1', 'yes', 'x'], [], 'ab', {'a': 1, 'b': 2}, None, 5, '[1, "yes"]', '12', '1,yes']),
@@ -633,12 +880,10 @@ def gen_cases(ctx):
 
 def scalars_of(ty):
     if isinstance(ty, str):
-        return {ty}
-    if ty[0] == 'tup':
-        return set().union(*[scalars_of(x) for x in ty[1]])
-    if ty[0] == 'dict':
-        return {ty[1]} | scalars_of(ty[2])
-    return scalars_of(ty[1])
+        return {ty} if ty in SCALARS else set()
+    if isinstance(ty, list):
+        return set().union(*[scalars_of(x) for x in ty]) if ty else set()
+    return set()
 
 
 def nontrivial(ty, v):
@@ -778,8 +1023,10 @@ def build_prelude(ctx, values, tz, typed=()):
 
     hexs = lambda h: coq_str(bytes.fromhex(h))
     lines = [
-        'Definition color_members : list (jv * pstr) := %s.' % coq_list(['(%s, %s)' % (coq_jv(v), coq_str(n)) for v, n in ENUMS['enum:Color']]),
-        'Definition num_members : list (jv * pstr) := %s.' % coq_list(['(%s, %s)' % (coq_jv(v), coq_str(n)) for v, n in ENUMS['enum:Num']]),
+    ] + [
+        'Definition %s : list (jv * pstr) := %s.' % (ENUM_COQ[e], coq_list(['(%s, %s)' % (coq_jv(v), coq_str(n)) for v, n in ENUMS[e]]))
+        for e in ENUMS
+    ] + [
         'Definition T_dom : list pstr := %s.' % coq_list([coq_str(x) for x in strings]),
         'Definition T_float : list (pstr * res fl) := %s.' % table('float', strings, coq_str, coq_fl_enc, 'EV'),
         'Definition T_str : list (jv * res pstr) := %s.' % table('str', strables, coq_jv, coq_str),
@@ -858,7 +1105,7 @@ def has_env_tuple_string(ty, v):
                 v = json.loads(v)
             except ValueError:
                 return False
-        elif k == 'dict':
+        elif k in ('dict', 'ddict', 'odict', 'td', 'dc'):
             v = {a.strip(): b.strip() for a, _, b in (p.partition('=') for p in v.split(','))}
         else:
             v = env_shorthand_list(v)
@@ -866,8 +1113,20 @@ def has_env_tuple_string(ty, v):
         return isinstance(v, list) and any(has_env_tuple_string(ty[1], x) for x in v)
     if k == 'tup':
         return isinstance(v, list) and any(has_env_tuple_string(t1, x) for t1, x in zip(ty[1], v))
-    if k == 'dict':
+    if k in ('dict', 'ddict', 'odict'):
         return isinstance(v, dict) and any(has_env_tuple_string(ty[2], x) for x in v.values())
+    if k in ('set', 'fset', 'deque', 'seq', 'mseq', 'coll'):
+        return isinstance(v, list) and any(has_env_tuple_string(ty[1], x) for x in v)
+    if k == 'td':
+        return isinstance(v, dict) and any(has_env_tuple_string(t1, v[n]) for n, t1, _ in ty[2] if n in v)
+    if k == 'nt':
+        return isinstance(v, list) and any(has_env_tuple_string(t1, x) for (_, t1, _), x in zip(ty[1], v))
+    if k == 'dc':
+        return isinstance(v, dict) and any(has_env_tuple_string(t1, v[n]) for n, t1 in ty[1] if n in v)
+    if k == 'union':
+        return any(has_env_tuple_string(t1, v) for t1 in ty[1])
+    if k == 'ann':
+        return has_env_tuple_string(ty[1], v)
     return False
 
 
@@ -878,38 +1137,60 @@ def known_region(case, eng):
 
 
 _TAGS = {'S': 'str', 'Y': 'bytes', 'Pdt': 'datetime', 'Pd': 'date', 'Pt': 'time', 'Ptd': 'timedelta(days,s,us)',
-         'Pdec': 'Decimal', 'M': 'Enum.'}
+         'Pdec': 'Decimal', 'Pu': 'UUID', 'M': 'Enum.'}
+_OPEN = {'NT[': 'namedtuple[', 'DC[': 'dataclass[', 'DD[': 'defaultdict[', 'OD[': 'OrderedDict[', 'FZ{': 'frozenset{',
+         'Z{': 'set{', 'Q[': 'deque[', 'L[': 'list[', 'T[': 'tuple[', 'D[': 'dict['}
+_TOKEN = re.compile(r'(NT\[|DC\[|DD\[|OD\[|FZ\{|Z\{|Q\[|L\[|T\[|D\[)|(Pdec|Pdt|Ptd|Pu|Pd|Pt|S|Y|M)([0-9a-f]*);|I(-?[0-9]+);|F([^;]*);|(B1|B0|N)|([\]}])')
 
 
 def pretty(code):
     """readable form of an encoded outcome (hex payloads decoded)"""
-    def sub(m):
-        try:
-            txt = bytes.fromhex(m.group(2)).decode('utf-8', 'replace')
-        except ValueError:
-            return m.group(0)
-        return '%s(%r) ' % (_TAGS[m.group(1)], txt)
     if code.startswith('E'):
         return code
-    out = re.sub(r'I(-?[0-9]+);', r'int(\1) ', code)
-    out = re.sub(r'F([^;]*);', r'float(\1) ', out)
-    out = out.replace('B1', 'True ').replace('B0', 'False ').replace('N', 'None ')
-    return re.sub(r'(Pdec|Pdt|Ptd|Pd|Pt|S|Y|M)([0-9a-f]*);', sub, out).strip()
+    out, pos = [], 0
+    while pos < len(code):
+        m = _TOKEN.match(code, pos)
+        if not m:
+            return code                      # unknown shape (e.g. an unexpected Python type): leave as is
+        if m.group(1):
+            out.append(_OPEN[m.group(1)])
+        elif m.group(2):
+            try:
+                txt = bytes.fromhex(m.group(3)).decode('utf-8', 'replace')
+            except ValueError:
+                return code
+            out.append('%s(%r) ' % (_TAGS[m.group(2)], txt))
+        elif m.group(4) is not None:
+            out.append('int(%s) ' % m.group(4))
+        elif m.group(5) is not None:
+            out.append('float(%s) ' % m.group(5))
+        elif m.group(6):
+            out.append({'B1': 'True ', 'B0': 'False ', 'N': 'None '}[m.group(6)])
+        else:
+            out.append(m.group(7) + ' ')
+        pos = m.end()
+    return ''.join(out).strip()
+
+
+def order_free(ty):
+    """TypedDict key order is not part of the property: compare with dict items sorted"""
+    return 'td' in json.dumps(ty)
 
 
 def check_direct(case, eng, o):
     """Direct predicate. None if it holds / is not applicable, else a description."""
-    ref = ref_coerce(case['ty'], case['val'], eng)
+    ref = ref_coerce(case['ty'], decode_val(case['val']), eng)
     if ref is UNDOC:
         return None, 'undoc'
     if ref is REJECT:
         if 'ok' in o:
             return 'accepted %s, the documentation says it is rejected' % pretty(o['ok']), 'reject'
         return None, 'reject'
-    want = enc(ref[1])
+    srt = order_free(case['ty'])
+    want = enc(ref[1], srt)
     if 'ok' not in o:
         return 'raised %s (%s), documented result %s' % (o.get('err'), (o.get('msg') or '')[:80].replace('\n', ' '), pretty(want)), 'ok'
-    if o['ok'] != want:
+    if (o.get('ok_sorted', o['ok']) if srt else o['ok']) != want:
         return 'loaded %s, documented result %s' % (pretty(o['ok']), pretty(want)), 'ok'
     return None, 'ok'
 
@@ -932,26 +1213,31 @@ def model_vs_impl(m, o, eng):
 
 def run_batch(ctx, cases, tz, tag):
     impl = ctx.impl('c04', {'cases': cases}, extra_env={'TZ': tz})
-    prelude, hyp_bad, orc, sizes = build_prelude(ctx, [c['val'] for c in cases], tz, [(c['ty'], c['val']) for c in cases])
+    mod = [c for c in cases if modelled(c)]
+    prelude, hyp_bad, orc, sizes = build_prelude(ctx, [c['val'] for c in mod], tz, [(c['ty'], c['val']) for c in mod])
     ctx.hist('oracle_table_sizes', '%s strings=%d numbers=%d strables=%d' % ((tag,) + sizes))
     ctx.hist('iso_z_premise', '%s: %d strings where fromisoformat reads a trailing Z unlike +00:00 (outside the v1 theorem)' % (tag, len(hyp_bad)))
-    exprs, index = [], []
+    exprs, where = [], []
     for i, c in enumerate(cases):
+        if not modelled(c):
+            continue
         for eng in c['engines']:
             exprs.append('run %s %s %s' % (COQ_ENGINE[eng], coq_ty(c['ty']), coq_jv(c['val'])))
-            index.append((i, eng))
+            where.append((i, eng))
     model = None
     try:
-        model = ctx.coq(exprs, ['PyStr', 'CoerceModel'], prelude=prelude, tag='cases_' + tag)
+        model = dict(zip(where, ctx.coq(exprs, ['PyStr', 'CoerceModel'], prelude=prelude, tag='cases_' + tag)))
     except Exception as e:
         ctx.broken_tie('model evaluation failed (%s): %s' % (tag, str(e)[-600:]))
+    index = [(i, eng) for i, c in enumerate(cases) for eng in c['engines']]
     return impl, model, index
 
 
 def evaluate(ctx, cases, impl, model, index, tz):
     n_tie = 0
-    for pos, (i, eng) in enumerate(index):
+    for (i, eng) in index:
         c = cases[i]
+        ctx.hist('in_model_grammar', 'yes' if modelled(c) else 'no (direct predicate only)')
         o = impl['cases'][i][eng]
         key = json.dumps([c['ty'], c['val'], eng, tz], sort_keys=True)
         ctx.count(1, key=key, nontrivial=nontrivial(c['ty'], c['val']))
@@ -974,9 +1260,9 @@ def evaluate(ctx, cases, impl, model, index, tz):
                 ctx.violation('%s %s <- %s: %s' % (eng, json.dumps(c['ty']), json.dumps(c['val'])[:120], bad),
                               {'kind': 'case', 'case': c, 'engine': eng, 'tz': tz})
         # correspondence
-        if model is not None:
+        if model is not None and (i, eng) in model:
             ctx.traces_validated += 1
-            d = model_vs_impl(model[pos], o, eng)
+            d = model_vs_impl(model[(i, eng)], o, eng)
             if d and region and ctx.finding(region) is not None and bad is None:
                 # the model is faithful to a listed defect; here the implementation behaves as documented
                 # (defect repaired): FINDING-RESOLVED is printed by replay_known, not a broken tie
@@ -986,7 +1272,7 @@ def evaluate(ctx, cases, impl, model, index, tz):
                 n_tie += 1
                 if n_tie <= 6:
                     ctx.broken_tie('Coerce model and implementation disagree (%s): %s %s <- %s' % (d, eng, json.dumps(c['ty']), json.dumps(c['val'])[:100]),
-                                   {'case': c, 'engine': eng, 'tz': tz, 'impl': o, 'model': model[pos]})
+                                   {'case': c, 'engine': eng, 'tz': tz, 'impl': o, 'model': model[(i, eng)]})
     return n_tie
 
 
